@@ -30,6 +30,7 @@ CKE = D + "handle_client_key_exchange"
 SKE = D + "handle_server_key_exchange"
 CERT = D + "handle_certificate::{closure#0}"
 VERIFY = "transports::dtls::verify_server_key_exchange_signature"
+SSH = D + "handle_client_hello::{closure#0}"
 
 
 def _role_edges(body, is_client_value):
@@ -238,6 +239,37 @@ def r02_4(ctx):
     return r
 
 
+def _append_sequence(b, names):
+    """labels of the values appended (Vec::push / extend_from_slice) in topological order"""
+    rank = core.topo_rank(b)
+    out = []
+    for bi, t, p in b.calls():
+        if bi in b.cleanup or bi not in rank or not p:
+            continue
+        if not (p.endswith("Vec::<T, A>::push") or p.endswith("::extend_from_slice")):
+            continue
+        if len(t["a"]) < 2:
+            continue
+        v = b.term_operand(t["a"][1])
+        lab = None
+        for k, nm in names.items():
+            if mir.has(v, lambda x: (x[0] == "arg" and x[1] == nm) or (x[0] == "field" and x[2] == nm) or (x[0] == "var" and x[1] == nm)):
+                lab = k
+        if lab == "public_key" and p.endswith("::push"):
+            lab = "len"
+        if lab is None and p.endswith("::push"):
+            iv = mir.int_value(v)
+            if iv == 3:
+                lab = "curve_type"
+            elif mir.has(v, lambda x: x[0] == "var" and x[1] == "pk_len") or mir.has(v, lambda x: x[0] == "call" and x[1].endswith("::len")):
+                lab = "len"
+        if lab is None and mir.has(v, lambda x: x[0] == "const" and x[1] == 23) and mir.has(v, lambda x: x[0] == "call" and x[1].endswith("to_be_bytes")):
+            lab = "named_curve"
+        if lab:
+            out.append((rank[bi], lab))
+    return [l for _, l in sorted(out)]
+
+
 def r02_5(ctx):
     r = RuleResult("R02.5", "K4", "what the verifier verifies; what the fingerprint hashes")
     v = ctx.body(VERIFY)
@@ -276,6 +308,29 @@ def r02_5(ctx):
             r.violate(VERIFY, "call:verify", v.where(0), "signature check does not bind certificate key / randoms / ECDH params: key_ok=%s covered=%s sig=%s" % (key_ok, need, sig_ok))
     if good == 0 and not r.violations:
         raise core.CheckerError("R02.5: could not locate Verifier::verify in the verifier's return value")
+    # the signed bytes, in order (RFC 4492 5.4): client_random, server_random, curve_type, named_curve, point length, point.
+    # Verifier and signer are siblings: both must append this sequence.
+    want = ["client_random", "server_random", "curve_type", "named_curve", "len", "public_key"]
+    for fn, names in ((VERIFY, {"client_random": "client_random", "server_random": "server_random", "curve_type": "curve_type", "named_curve": "named_curve", "public_key": "public_key"}),
+                      (SSH, {"client_random": "client_random", "server_random": "server_random", "public_key": "local_public_key_bytes"})):
+        fb = ctx.body(fn)
+        seq = _append_sequence(fb, names)
+        # only the stretch that ends in the public key and starts at the nearest client_random before it
+        if "public_key" in seq and "client_random" in seq:
+            e = seq.index("public_key")
+            st = e
+            while st > 0 and seq[st - 1] != "public_key":
+                st -= 1
+            got = seq[st:e + 1]
+            # runs of the same label are impossible in the correct form; keep them so that a doubled random is seen
+        elif fn != VERIFY:
+            raise core.CheckerError("R02.5: cannot find the ServerKeyExchange signature input in %s (appended: %s)" % (fn, seq))
+        else:
+            got = seq
+        if got == want:
+            r.ok({fn.split("::")[-1].replace("{closure#0}", "").strip(":"): "signed bytes = " + " || ".join(want)})
+        else:
+            r.violate(fn, "signed-params:order", fb.where(0), "the ServerKeyExchange signature input is assembled as %s, RFC 4492 5.4 requires %s" % (got, want))
     f = ctx.body("transports::dtls::fingerprint_from_der")
     sha = [1 for bi, t, p in f.calls() if p and ("Sha256" in p or "sha2" in p) or (p and p.endswith("Digest::new") and "Sha256" in mir.callee_generic(t["f"]) + str(t["f"].get("fnfull", "")))]
     upd = [1 for bi, t, p in core.calls_to(f, suffix("Digest::update", "Update::update")) if any(f.term_operand(a) == ("arg", "certificate_der") for a in t["a"])]
